@@ -64,6 +64,8 @@ struct World
 };
 
 thread_local Task * t_task = nullptr;
+thread_local int t_in_wrapper = 0; // >0 while the thread executes scheduler bookkeeping: no nested schedule point
+struct WrapScope { WrapScope() { t_in_wrapper++; } ~WrapScope() { t_in_wrapper--; } };
 World * g_world = nullptr;
 i64 g_total_qng = 0, g_total_qng_fail = 0;
 
@@ -172,6 +174,7 @@ int current_task() { return t_task ? t_task->id : -1; }
 static bool g_io_points = false;
 void set_io_points(bool on) { g_io_points = on; }
 bool io_points() { return g_io_points; }
+bool alloc_point_ok() { return g_io_points && t_task != nullptr && t_in_wrapper == 0; }
 i64 total_qng_calls() { return g_total_qng; }
 i64 total_qng_fails() { return g_total_qng_fail; }
 
@@ -216,6 +219,7 @@ void sched_point(int kind, i64)
   Task * t = t_task;
   World * wp = g_world;
   if (!t || !wp) return;
+  WrapScope ws_;
   World & w = *wp;
   t->steps++;
   if (kind >= 0 && kind < 16) t->kind_count[kind]++;
@@ -243,6 +247,7 @@ gsl_error_handler_t * __wrap_gsl_set_error_handler_off(void)
 {
   Task * t = t_task; World * w = g_world;
   if (!t || !w) return __real_gsl_set_error_handler_off();
+  WrapScope ws_;
   sched_point(SP_GSL_OFF_PRE, 0);
   gsl_error_handler_t * old = __real_gsl_set_error_handler_off();
   shadow_handler_rw();
@@ -257,6 +262,7 @@ gsl_error_handler_t * __wrap_gsl_set_error_handler(gsl_error_handler_t * h)
 {
   Task * t = t_task; World * w = g_world;
   if (!t || !w) return __real_gsl_set_error_handler(h);
+  WrapScope ws_;
   sched_point(SP_GSL_SET_PRE, 0);
   gsl_error_handler_t * old = __real_gsl_set_error_handler(h);
   shadow_handler_rw();
@@ -275,6 +281,7 @@ int __wrap_gsl_integration_qng(const gsl_function * f, double a, double b, doubl
     g_total_qng++; if (st != 0) g_total_qng_fail++;
     return st;
   }
+  WrapScope ws_;
   sched_point(SP_QNG_PRE, 0);
   int st = __real_gsl_integration_qng(f, a, b, ea, er, r, ae, ne);
   g_total_qng++;
@@ -304,6 +311,7 @@ int __wrap_pthread_mutex_lock(pthread_mutex_t * m)
 {
   Task * t = t_task; World * w = g_world;
   if (!t || !w) return __real_pthread_mutex_lock(m);
+  WrapScope ws_;
   sched_point(SP_MUTEX, 0);
   int spins = 0;
   while (true) {
@@ -344,6 +352,7 @@ int __wrap_pthread_mutex_trylock(pthread_mutex_t * m)
 {
   Task * t = t_task; World * w = g_world;
   if (!t || !w) return __real_pthread_mutex_trylock(m);
+  WrapScope ws_;
   int rc = __real_pthread_mutex_trylock(m);
   if (rc == 0) {
     w->owner[m] = t->id;
@@ -357,6 +366,7 @@ int __wrap_pthread_mutex_unlock(pthread_mutex_t * m)
 {
   Task * t = t_task; World * w = g_world;
   if (!t || !w) return __real_pthread_mutex_unlock(m);
+  WrapScope ws_;
   auto it = w->owner.find(m);
   if (it == w->owner.end() || it->second != t->id) return __real_pthread_mutex_unlock(m); // not tracked (locked before the run)
   w->mutex_vc[m] = t->vc;
@@ -375,6 +385,7 @@ int __wrap___cxa_guard_acquire(void * g)
 {
   Task * t = t_task; World * w = g_world;
   if (!t || !w) return __real___cxa_guard_acquire(g);
+  WrapScope ws_;
   while (true) {
     auto it = w->guard_owner.find(g);
     if (it != w->guard_owner.end() && it->second != t->id) {
@@ -398,6 +409,7 @@ static void guard_done(void * g)
 {
   Task * t = t_task; World * w = g_world;
   if (!t || !w) return;
+  WrapScope ws_;
   w->guard_vc[g] = t->vc;
   t->vc[(size_t)t->id]++;
   w->guard_owner.erase(g);
